@@ -43,7 +43,10 @@ func (m *mergeFields) traverseNode(node resolve.Node) {
 						Value:       n.Fields[i].Value.Copy(),
 						Position:    n.Fields[i].Position,
 						OnTypeNames: [][]byte{additionalTypeNames[j]},
-						Info:        n.Fields[i].Info,
+						// the duplicate is reachable under the same parent types as the original
+						// (the type conditions propagated from the fields above)
+						ParentOnTypeNames: n.Fields[i].CopyParentOnTypeNames(),
+						Info:              n.Fields[i].Info,
 					}
 					n.Fields = append(n.Fields[:i+1], append([]*resolve.Field{additionalField}, n.Fields[i+1:]...)...)
 				}
